@@ -10,15 +10,16 @@ open Cvss Cvss.Model Cvss.Spec.Grammar
 
 def sameSet (a b : List Str) : Bool := a.all (· ∈ b) && b.all (· ∈ a) && a.length == b.length
 
-/-- the tables the parser consults describe the specification's vocabulary:
-    same metrics in the same order, the same legal values per metric, same mandatory metrics -/
+/-- the tables the parser consults describe the specification's vocabulary: the same set of metrics,
+    the same legal values per metric, the same set of mandatory metrics (the ORDER of the tables is not
+    pinned here: acceptance does not depend on it) -/
 def vocabPinned (T : Tables) (g : G) : Bool :=
-  T.abbrs == keys g.vocab &&
+  sameSet T.abbrs (keys g.vocab) &&
   g.vocab.all (fun (m, vs) => match lookup m T.legal with
     | some ws => sameSet vs ws
     | none => false) &&
   (keys T.legal).all (fun m => m ∈ keys g.vocab) &&
-  T.mandatory == g.mandatory
+  sameSet T.mandatory g.mandatory && decide T.abbrs.Nodup
 
 theorem vocab_pinned_v2 : vocabPinned V2.tables g2 = true := by decide +kernel
 theorem vocab_pinned_v3 : vocabPinned V3.tables g3 = true := by decide +kernel
@@ -56,23 +57,29 @@ theorem sameSet_iff {a b : List Str} (h : sameSet a b = true) (v : Str) : v ∈ 
   simp only [Bool.and_eq_true, List.all_eq_true, decide_eq_true_eq] at h
   exact ⟨h.1.1 v, h.1.2 v⟩
 
-theorem pinned_abbrs {T : Tables} {g : G} (h : vocabPinned T g = true) : T.abbrs = keys g.vocab := by
+theorem pinned_abbrs {T : Tables} {g : G} (h : vocabPinned T g = true) (m : Str) :
+    m ∈ T.abbrs ↔ m ∈ keys g.vocab := by
   unfold vocabPinned at h
   simp only [Bool.and_eq_true] at h
-  exact eq_of_beq h.1.1.1
+  exact sameSet_iff h.1.1.1.1 m
 
-theorem pinned_mandatory {T : Tables} {g : G} (h : vocabPinned T g = true) :
-    T.mandatory = g.mandatory := by
+theorem pinned_nodup {T : Tables} {g : G} (h : vocabPinned T g = true) : T.abbrs.Nodup := by
   unfold vocabPinned at h
   simp only [Bool.and_eq_true] at h
-  exact eq_of_beq h.2
+  exact of_decide_eq_true h.2
+
+theorem pinned_mandatory {T : Tables} {g : G} (h : vocabPinned T g = true) (m : Str) :
+    m ∈ T.mandatory ↔ m ∈ g.mandatory := by
+  unfold vocabPinned at h
+  simp only [Bool.and_eq_true] at h
+  exact sameSet_iff h.1.2 m
 
 theorem pinned_legal {T : Tables} {g : G} (h : vocabPinned T g = true) {m : Str} {vs : List Str}
     (hl : lookup m g.vocab = some vs) :
     ∃ ws, lookup m T.legal = some ws ∧ ∀ v, v ∈ vs ↔ v ∈ ws := by
   unfold vocabPinned at h
   simp only [Bool.and_eq_true] at h
-  have := List.all_eq_true.1 h.1.1.2 (m, vs) (mem_of_lookup_eq_some _ _ _ hl)
+  have := List.all_eq_true.1 h.1.1.1.2 (m, vs) (mem_of_lookup_eq_some _ _ _ hl)
   simp only at this
   split at this
   · rename_i ws hws
@@ -113,11 +120,10 @@ theorem Pinned.isField_iff (h : Pinned T g) (f m : Str) :
     have hmem := mem_of_lookup_eq_some _ _ _ hl
     obtain ⟨-, hc, hvs⟩ := clean_tokens h.clean hmem
     refine ⟨v, rfl, ?_, ⟨ws, hws, (hiff v).1 hv⟩, hc, (hvs v hv).2⟩
-    rw [pinned_abbrs h.pinned]
-    exact mem_keys_of_mem hmem
+    exact (pinned_abbrs h.pinned _).2 (mem_keys_of_mem hmem)
   · rintro ⟨v, rfl, hab, ⟨ws, hws, hv⟩, -, -⟩
     simp only at hab hws hv
-    rw [pinned_abbrs h.pinned] at hab
+    replace hab := (pinned_abbrs h.pinned _).1 hab
     obtain ⟨vs, hvs⟩ := Option.isSome_iff_exists.1 ((lookup_isSome_iff_mem_keys _ _).2 hab)
     obtain ⟨ws', hws', hiff⟩ := pinned_legal h.pinned hvs
     rw [hws] at hws'
@@ -195,26 +201,26 @@ theorem Pinned.accepts_iff (h : Pinned T g) (s : Str) :
       ∃ p ∈ g.prefixes, ∃ mm : MMap, s = p ++ join '/' (mm.map fieldOf) ∧ mm ≠ [] ∧
         (∀ kv ∈ mm, LegalPair T kv) ∧ (keys mm).Nodup ∧ ∀ k ∈ T.mandatory, k ∈ keys mm := by
   unfold Accepts
-  rw [pinned_mandatory h.pinned]
   constructor
   · rintro ⟨ms, hwf, hm⟩
     obtain ⟨p, hp, mm, hs, hne, hl, hn, rfl⟩ := (h.wellFormed_iff _ _).1 hwf
-    exact ⟨p, hp, mm, hs, hne, hl, hn, hm⟩
+    exact ⟨p, hp, mm, hs, hne, hl, hn, fun k hk => hm k ((pinned_mandatory h.pinned k).1 hk)⟩
   · rintro ⟨p, hp, mm, hs, hne, hl, hn, hm⟩
-    exact ⟨keys mm, (h.wellFormed_iff _ _).2 ⟨p, hp, mm, hs, hne, hl, hn, rfl⟩, hm⟩
+    exact ⟨keys mm, (h.wellFormed_iff _ _).2 ⟨p, hp, mm, hs, hne, hl, hn, rfl⟩,
+      fun k hk => hm k ((pinned_mandatory h.pinned k).2 hk)⟩
 
 theorem Pinned.lacks_iff (h : Pinned T g) (s : Str) :
     LacksMandatory g s ↔
       ∃ p ∈ g.prefixes, ∃ mm : MMap, s = p ++ join '/' (mm.map fieldOf) ∧ mm ≠ [] ∧
         (∀ kv ∈ mm, LegalPair T kv) ∧ (keys mm).Nodup ∧ ∃ k ∈ T.mandatory, k ∉ keys mm := by
   unfold LacksMandatory
-  rw [pinned_mandatory h.pinned]
   constructor
-  · rintro ⟨ms, hwf, hm⟩
+  · rintro ⟨ms, hwf, k, hk, hnk⟩
     obtain ⟨p, hp, mm, hs, hne, hl, hn, rfl⟩ := (h.wellFormed_iff _ _).1 hwf
-    exact ⟨p, hp, mm, hs, hne, hl, hn, hm⟩
-  · rintro ⟨p, hp, mm, hs, hne, hl, hn, hm⟩
-    exact ⟨keys mm, (h.wellFormed_iff _ _).2 ⟨p, hp, mm, hs, hne, hl, hn, rfl⟩, hm⟩
+    exact ⟨p, hp, mm, hs, hne, hl, hn, k, (pinned_mandatory h.pinned k).2 hk, hnk⟩
+  · rintro ⟨p, hp, mm, hs, hne, hl, hn, k, hk, hnk⟩
+    exact ⟨keys mm, (h.wellFormed_iff _ _).2 ⟨p, hp, mm, hs, hne, hl, hn, rfl⟩,
+      k, (pinned_mandatory h.pinned k).1 hk, hnk⟩
 
 end generic
 
